@@ -238,7 +238,24 @@ func C03SeqConfigs(thorough bool) []*world.Config {
 	return cs
 }
 
+// c03Saturation: a tree with more than 40 dirty nodes, so that flush's 40-slot gate
+// saturates and (after a failure) queued writes are skipped; every single write fails in turn.
+// The completion order is whatever the Go scheduler produces here (not enumerated): this part
+// is fault-exhaustive only, which the evidence says.
+func c03Saturation(run *report.Run, acc *pairAcc, st *c03Stats) {
+	cfg := world.UintCfg(2, urange(1, 64), 1, ref.FormatBinary, "none")
+	cfg.Name = "saturation/" + cfg.Name
+	var hist []world.Op
+	for k := range cfg.Keys {
+		hist = append(hist, world.Op{Kind: world.OpIns, K: k, V: 0})
+	}
+	before := st.failing
+	c03State(cfg, hist, acc, st, 1)
+	run.Parts = append(run.Parts, map[string]interface{}{"part": "A: gate saturation (64 entries, >40 dirty nodes), every single write failing, free-running completion order", "executions_with_a_failing_write": st.failing - before})
+}
+
 func c03Sequential(run *report.Run, acc *pairAcc, st *c03Stats) {
+	c03Saturation(run, acc, st)
 	for _, cfg := range C03SeqConfigs(run.Thorough()) {
 		hists := closureStatesBounded(run, "C03", cfg)
 		run.States += int64(len(hists))
